@@ -215,7 +215,7 @@ def run(ctx, prop):
         if "machinery" in r:
             raise core.MachineryFailure(f"trace validation ({src}): {r['machinery']}")
         ctx.count()
-        if r.get("known"):
+        if r.get("known") and prop == "C14":
             ctx.violation("single/T/after-decimate", "recorded trace: listed finding single/T/after-decimate", {"trace": True})
         if r["accepted"]:
             n_ok += 1
